@@ -26,7 +26,8 @@ RULE = ('one run = one simulated hand of a board game (hold\'em, short-deck, roy
         'than one board per starting board in tournament mode; at the end board_count == b*r, every board is complete, '
         'the r run-outs of a starting board share exactly the cards dealt before the all-in and no card occurs twice over '
         'boards and hands; each pot is divided evenly over the boards (exactly for Fraction chips, remainder to the first '
-        'board for int). non-trivial = hand with an all-in showdown before the last board street; distinct = distinct '
+        'board for int); the dealing model of C10 (every board deal goes to the end of one board, the first that lacks '
+        'cards) and the settlement model of C02 (per board and hand type) follow the hand as well. non-trivial = hand with an all-in showdown before the last board street; distinct = distinct '
         '(variant, mode, b, street of all-in, preference vector, selection/show interleaving) tuples')
 ASSUMPTIONS = [
     'capacity rule: preferences are drawn only from counts the deck can physically serve',
@@ -211,10 +212,15 @@ def run(ch, ctx):
     if cfg['chip'] == 'fraction':
         cfg['unit_den'] = 1
     mon = RunoutMonitor(cfg)
+    # which board a card is dealt to (placement rule of the dealing model) and who is paid on which board (settlement
+    # model per board and hand type) are part of "dealt as documented" / "each pot divided between the boards"
+    from .c10 import DealMonitor
+    from .c02 import SettleMonitor
+    extra = [DealMonitor(prefix='C14.deal'), SettleMonitor(cfg, prefix='C14.settle')]
     world = None
     try:
         mucks = ch.chance('c14.mucks', 1, 3)
-        world = World(ch, ctx, cfg, [mon], run_key=run_key_of(ch), muck_num=2 if mucks else 0, partial_show=False,
+        world = World(ch, ctx, cfg, [mon] + extra, run_key=run_key_of(ch), muck_num=2 if mucks else 0, partial_show=False,
                       profile=ch.choice('c14.profile', ('shover', 'aggressive', 'aggressive', 'balanced')),
                       runout_prefs=(None, 1, 2, 2, 3, 3))
         if ch.chance('c14.consensus', 1, 2):       # half of the tables agree (with abstentions), so that r > 1 is reached often
